@@ -876,6 +876,7 @@ def check_accept_tables(prog, rep):
                 continue
             rep.touch(f)
             bad = {}
+            bad_end = {}
             for b in sorted(SPEC.accept_set(fam)):
                 exp = expected_accept(fam, ptype, b, kind)
                 paths = [p for p in per[b] if sufficient(p)]
@@ -885,9 +886,18 @@ def check_accept_tables(prog, rep):
                     rep.ok('R7.1', site, sample={'reader': kind, 'method': short_method(name, ptype), 'first_byte': '0x%02x' % b,
                                                  'expected': {k: str(v) for k, v in exp.items()}} if b in (0xcd, 0xd6) else None)
                     rep.ok('R7.4', site, nontrivial=False)
+                elif exp.get('end') is not None and any(match_accept(dict(exp, end=None), p, kind) for p in paths):
+                    # header and payload are read and delivered as specified, only the cursor does not end behind the value
+                    rep.ok('R7.1', site, nontrivial=False)
+                    ends = sorted(set(str(semantic(p)[1]) for p in paths if match_accept(dict(exp, end=None), p, kind)))
+                    bad_end.setdefault((str(exp['end']), tuple(ends)), []).append(b)
                 else:
                     got = sorted(set(str(semantic(p)) for p in paths))
                     bad.setdefault(str(sorted((k, str(v)) for k, v in exp.items() if k != 'conv_src' and k != 'store')), []).append((b, got))
+            for (want_end, ends), bs in bad_end.items():
+                rep.finding('R7.4', '%s|%s|%s|extent' % (kind, short_method(name, ptype), SPEC.family(bs[0])[0]), f.loc(),
+                            '%s reader %s decodes first byte(s) %s (%s) but leaves the cursor at offset %s instead of %s: the next value is read from the wrong place'
+                            % (kind, short_method(name, ptype), fmt_bytes(bs), SPEC.family(bs[0])[0], ' / '.join(ends), want_end), func=f.id, count=len(bs))
             for expdesc, lst in bad.items():
                 bs = [b for b, _ in lst]
                 rep.finding('R7.1', '%s|%s|%s' % (kind, short_method(name, ptype), SPEC.family(bs[0])[0]), f.loc(),
